@@ -196,7 +196,7 @@ def oracle(c):
             for s_ in use:
                 t2 *= s_
             if t2 != len(pts) or all(S.unit_range(kv) for (_, kv, _) in ds):
-                return msg
+                return msg + " [not the count the recorded finding F-01 predicts]"
         params = [[kv[p] + (kv[n] - kv[p]) * F(i, sz - 1) for i in range(sz)] if sz > 1 else [kv[p]] for (p, kv, n), sz in zip(ds, use)]
         idx = 0
         for combo in itertools.product(*params):   # u slowest ... last direction fastest
@@ -209,7 +209,7 @@ def oracle(c):
 
 
 def classify(c, why):
-    if c.kind == 'grid' and why.startswith('sampled grid has'):
+    if c.kind == 'grid' and why.startswith('sampled grid has') and 'not the count' not in why:
         d = c.data['shape']
         if any(not S.unit_range(kv) for (_, kv, _) in S.dirs(d)):
             return 'F-01'
